@@ -234,7 +234,16 @@ pub enum Op {
     CancelIdle(Id),
     DropIdle(Id),
     // ---- adapters
-    AdaptIo { id: Id, fd: FdSpec, borrowed: bool, blocking: bool },
+    AdaptIo {
+        id: Id,
+        fd: FdSpec,
+        borrowed: bool,
+        blocking: bool,
+        /// the IO object's flush() reports WouldBlock while the fd is not writable (as a
+        /// buffering wrapper with something left to drain would)
+        #[serde(default)]
+        flushy: bool,
+    },
     AdapterIntoInner(Id),
     AdapterDrop(Id),
     // ---- loop
@@ -297,6 +306,12 @@ pub enum Op {
     /// scripted failure inside the wrapper's own re-registration: 1 = the next replacement
     /// child's register() fails, 2 = the current child's next unregister() fails
     TrChildFail(Id, u8),
+    /// replace(new) + update() in which the registration of the new child fails, then the
+    /// retry: update() again (C15: a failed update leaves everything ready for the retry)
+    TrReplaceFailRetry(Id, ChildSpec),
+    /// the parent puts a new `TransientSource::from(child)` into its (empty) slot and asks for
+    /// a re-registration: the child's first registration call is reregister(), not register()
+    TrAssign(Id, ChildSpec, bool),
     TrReplaceLazy(Id, ChildSpec),
     /// EventLoop::block_on(future): the future returns Pending `pendings` times; each time it
     /// either wakes itself during the poll (yield pattern) or relies on an environment Wakeup /
@@ -447,6 +462,8 @@ impl Op {
             Op::Run { .. } => "Run",
             Op::TrRemoveLazy(_) => "TrRemoveLazy",
             Op::TrChildFail(..) => "TrChildFail",
+            Op::TrReplaceFailRetry(..) => "TrReplaceFailRetry",
+            Op::TrAssign(..) => "TrAssign",
             Op::TrReplaceLazy(..) => "TrReplaceLazy",
             Op::BlockOn { .. } => "BlockOn",
             Op::ManyPings { .. } => "ManyPings",
